@@ -2,12 +2,16 @@
 # run.sh <property id> <quick|thorough>
 # Analyses /repo's current working tree from source (nothing cached between runs),
 # prints VIOLATION / KNOWN-FINDING lines, rewrites evidence/<id>.json.
+# The evidence file is never absent while a check runs: the analysis of the tree comes first in both tiers and replaces
+# the file atomically (about a second after the start); in the thorough tier that first version says the controls are
+# pending and is replaced again when they have finished. Only a run that could not analyse the tree (exit 2) removes it.
 # Exit 0: all obligations discharged (known findings listed); 1: violation; 2: checker could not run.
 #
 # thorough = quick rules + whole-program closures (EDGE-C) + positive controls: every
 # confirmed seeded change for this property (seeded/<id>-*/patch.diff) is applied to a scratch
 # copy of the current tree OUTSIDE /repo and /verif, analysed (never executed), and must be
-# reported; the scratch copy is removed at once. A control whose patch does not apply to the
+# reported; the scratch copy is removed at once (tools/control_one.sh; VERIF_JOBS controls run at a time, default
+# min(cores, 12)). A control whose patch does not apply to the
 # current tree is skipped (recorded in the evidence), never counted as a failure.
 # Negative controls (behaviour-preserving variants from benign/) are analysed the same way and
 # recorded; they are informational.
@@ -17,58 +21,89 @@ tier=${2:-${VERIF_TIER:-quick}}
 here=$(cd "$(dirname "$0")" && pwd)
 export GOFLAGS=-mod=mod GOPROXY=off GOSUMDB=off GOTOOLCHAIN=local GOWORK=off
 bin="$here/bin/argverif"
+ev="$here/evidence/$id.json"
 if [ ! -x "$bin" ] || [ -n "$(find "$here/checker" -name '*.go' -newer "$bin" -print -quit 2>/dev/null)" ]; then
-  (cd "$here/checker" && go build -o "$bin" ./cmd/argverif) || { echo "run.sh: cannot build checker" >&2; exit 2; }
+  mkdir -p "$here/bin"
+  # built beside the target and moved into place: checks started in parallel never execute a half-written binary
+  (cd "$here/checker" && go build -o "$bin.$$" ./cmd/argverif && mv -f "$bin.$$" "$bin") || { rm -f "$bin.$$" "$ev"; echo "run.sh: cannot build checker" >&2; exit 2; }
 fi
 repo=${VERIF_REPO:-/repo}
-rm -f "$here/evidence/$id.json"
-controls=""
-crc=0
-if [ "$tier" = thorough ]; then
-  controls=$(mktemp /tmp/argverif-controls.XXXXXX)
-  echo "[" > "$controls"; first=1
-  for sd in "$here"/seeded/$id-* "$here"/fixtures/$id-*; do
-    [ -f "$sd/patch.diff" ] || continue
-    name=$(basename "$sd")
-    scratch=$(mktemp -d /tmp/argverif-ctl.XXXXXX)
-    cp -r "$repo"/. "$scratch"/ 2>/dev/null; rm -rf "$scratch/.git"
-    status=skipped-patch-does-not-apply; rules=""
-    if (cd "$scratch" && patch -p1 -s --no-backup-if-mismatch < "$sd/patch.diff" >/dev/null 2>&1); then
-      vd=$(mktemp -d /tmp/argverif-ctlv.XXXXXX); cp "$here/known_findings.json" "$vd/" 2>/dev/null
-      out=$("$bin" -repo "$scratch" -verif "$vd" -property "$id" -tier quick 2>&1); rc=$?
-      rules=$(echo "$out" | grep -oE "rule=[A-Z0-9-]+" | sort -u | sed 's/rule=//' | tr '\n' ' ')
-      if [ $rc -eq 1 ]; then status=reported; elif [ $rc -eq 2 ]; then status=not-analysable; else status=MISSED; crc=2; fi
-      rm -rf "$vd"
-    fi
-    rm -rf "$scratch"
-    [ $first -eq 1 ] || echo "," >> "$controls"; first=0
-    printf '{"control":"%s","status":"%s","rules":"%s"}' "$name" "$status" "$rules" >> "$controls"
-    [ "$status" = MISSED ] && echo "CONTROL-FAILED property=$id positive control $name (a confirmed breaking change) was not reported" >&2
-  done
-  # negative controls: the repaired twin of this property's disguised seed (same refactoring, slip corrected) and the
-  # hand-written behaviour-preserving variants must NOT be reported. Informational: recorded in the evidence, never
-  # changes the exit status (two twins are documented limits, DESIGN §7.5).
-  for bd in "$here"/benign/R9-$id "$here"/benign/R7-* "$here"/benign/R8-*; do
-    [ -f "$bd/patch.diff" ] || continue
-    name=$(basename "$bd")
-    scratch=$(mktemp -d /tmp/argverif-ctl.XXXXXX)
-    cp -r "$repo"/. "$scratch"/ 2>/dev/null; rm -rf "$scratch/.git"
-    status=skipped-patch-does-not-apply; rules=""
-    if (cd "$scratch" && patch -p1 -s --no-backup-if-mismatch < "$bd/patch.diff" >/dev/null 2>&1); then
-      vd=$(mktemp -d /tmp/argverif-ctlv.XXXXXX); cp "$here/known_findings.json" "$vd/" 2>/dev/null
-      out=$("$bin" -repo "$scratch" -verif "$vd" -property "$id" -tier quick 2>&1); rc=$?
-      rules=$(echo "$out" | grep -oE "rule=[A-Z0-9-]+" | sort -u | sed 's/rule=//' | tr '\n' ' ')
-      if [ $rc -eq 0 ]; then status=silent; elif [ $rc -eq 2 ]; then status=not-analysable; else status=reported-though-benign; fi
-      rm -rf "$vd"
-    fi
-    rm -rf "$scratch"
-    [ $first -eq 1 ] || echo "," >> "$controls"; first=0
-    printf '{"control":"%s","kind":"negative","status":"%s","rules":"%s"}' "$name" "$status" "$rules" >> "$controls"
-  done
-  echo "]" >> "$controls"
+case "$tier" in quick|thorough) ;; *) echo "run.sh: tier must be quick or thorough" >&2; exit 2;; esac
+
+if [ "$tier" = quick ]; then
+  "$bin" -repo "$repo" -verif "$here" -property "$id" -tier quick
+  rc=$?
+  [ $rc -eq 2 ] && rm -f "$ev"
+  exit $rc
 fi
-"$bin" -repo "$repo" -verif "$here" -property "$id" -tier "$tier" ${controls:+-controls "$controls"}
+
+# thorough, step 1: the tree itself (rules of the quick tier + whole-program closures). Writes the evidence at once,
+# with the controls marked pending. A violation on the tree is reported without waiting for the controls.
+out=$("$bin" -repo "$repo" -verif "$here" -property "$id" -tier thorough -controls pending 2>&1)
 rc=$?
-[ -n "$controls" ] && rm -f "$controls"
+if [ $rc -ne 0 ]; then
+  echo "$out"
+  [ $rc -eq 2 ] && rm -f "$ev"
+  exit $rc
+fi
+
+# step 2: the controls, in parallel, each on its own scratch copy
+work=$(mktemp -d /tmp/argverif-run.XXXXXX)
+xpid=
+cleanup() {
+  # an interrupted run stops its workers (each removes its own scratch copy on the way out) and leaves nothing in /tmp
+  if [ -n "$xpid" ]; then pkill -TERM -P "$xpid" 2>/dev/null; kill -TERM "$xpid" 2>/dev/null; wait "$xpid" 2>/dev/null; fi
+  rm -rf "$work"
+}
+trap cleanup EXIT
+trap 'exit 143' INT TERM HUP
+n=0
+: > "$work/list"
+for sd in "$here"/seeded/$id-* "$here"/fixtures/$id-*; do
+  [ -f "$sd/patch.diff" ] || continue
+  n=$((n+1)); printf 'positive\t%s\t%s\n' "$sd" "$work/$(printf %05d $n).json" >> "$work/list"
+done
+# negative controls: the repaired twin of this property's disguised seed (same refactoring, slip corrected) and the
+# hand-written behaviour-preserving variants must NOT be reported. Informational: recorded in the evidence, never
+# changes the exit status (two twins are documented limits, DESIGN §7.5).
+for bd in "$here"/benign/R9-$id "$here"/benign/R7-* "$here"/benign/R8-*; do
+  [ -f "$bd/patch.diff" ] || continue
+  n=$((n+1)); printf 'negative\t%s\t%s\n' "$bd" "$work/$(printf %05d $n).json" >> "$work/list"
+done
+jobs=${VERIF_JOBS:-$(nproc 2>/dev/null || echo 4)}
+[ "$jobs" -gt 12 ] 2>/dev/null && jobs=12
+[ "$jobs" -ge 1 ] 2>/dev/null || jobs=1
+tr '\t' '\n' < "$work/list" > "$work/args"
+# xargs appends <kind> <variant dir> <out file> to the fixed arguments; in the background so that a signal is acted on at once
+xargs -d '\n' -n 3 -P "$jobs" "$here/tools/control_one.sh" "$bin" "$repo" "$here/known_findings.json" "$id" < "$work/args" &
+xpid=$!
+wait $xpid
+xpid=
+controls="$work/controls.json"
+crc=0
+{
+  echo "["; first=1
+  while IFS="$(printf '\t')" read -r kind dir of; do
+    name=$(basename "$dir")
+    if [ ! -s "$of" ]; then
+      # the worker died before it could say anything: recorded as not analysable, never as reported or silent
+      if [ "$kind" = positive ]; then printf '{"control":"%s","status":"not-analysable","rules":""}' "$name" > "$of"
+      else printf '{"control":"%s","kind":"negative","status":"not-analysable","rules":""}' "$name" > "$of"; fi
+    fi
+    [ $first -eq 1 ] || echo ","; first=0
+    cat "$of"
+  done < "$work/list"
+  echo; echo "]"
+} > "$controls"
+for name in $(grep -o '"control":"[^"]*","status":"MISSED"' "$controls" | cut -d'"' -f4); do
+  crc=2
+  echo "CONTROL-FAILED property=$id positive control $name (a confirmed breaking change) was not reported" >&2
+done
+
+# step 3: the tree again (the source may have changed meanwhile: the verdict printed is the one of this analysis),
+# evidence replaced with the outcome of every control
+"$bin" -repo "$repo" -verif "$here" -property "$id" -tier thorough -controls "$controls"
+rc=$?
+[ $rc -eq 2 ] && rm -f "$ev"
 if [ $rc -eq 0 ] && [ $crc -ne 0 ]; then rc=$crc; fi
 exit $rc
